@@ -54,6 +54,10 @@ def _alarm(signum, frame):
 
 signal.signal(signal.SIGALRM, _alarm)
 BUNDLED = None          # module ids preloaded in a fresh interpreter
+# The variable of a `for` loop aborted by an error stays bound in the pinned
+# code and the spec models that (DESIGN 5.3); the property does not demand it,
+# so a tree that cleans it up only drifts.
+SOFT_NAMES = {"i"}
 
 
 # ------------------------------------------------------------------ sources
@@ -274,9 +278,14 @@ def observe(sess, i, want):
     if lang != api:
         diffs.append(("ls-vs-api", f"ls() shows {sorted(lang ^ api)} differently from the scope map"))
     exp = set(want.keys())
-    for n in sorted(api - exp):
+    for n in sorted((lang ^ exp) & SOFT_NAMES):
+        diffs.append(("drift:loopvar", f"{i}: loop variable {n} {'kept' if n in lang else 'not kept'} "
+                                       f"after the aborted loop, spec says the opposite"))
+    exp -= SOFT_NAMES
+    # the verdict is on what the language shows (ls()); the scope map is the cross-check above
+    for n in sorted(lang - exp - SOFT_NAMES):
         diffs.append(("names", f"unexpected name {n} in the scope of {i}"))
-    for n in sorted(exp - api):
+    for n in sorted(exp - lang):
         diffs.append(("names", f"name {n} is missing from the scope of {i}"))
     for n in sorted(exp & api):
         w = want[n]
@@ -398,14 +407,21 @@ class Walker:
     plan(sid, depth, path, tag) -> list of
         (cmd, outcome, post sid, expand, tag', inline)
     Every executed edge is compared with the spec; findings go to a shared
-    append-only file as JSON lines.  A semaphore bounds the number of
-    processes that work at the same time."""
+    append-only file as JSON lines.
+
+    Process discipline: the walk is a depth-first traversal in which a child
+    is normally forked and waited for at once (so a chain of at most
+    tree-depth processes exists, one of them running).  When one of the
+    NPROC-1 slots of the semaphore is free the child is instead started
+    asynchronously as a further chain; it gives the slot back when its whole
+    subtree is done.  At most NPROC processes run and at most about
+    NPROC x depth exist; finished children are reaped as the loop goes."""
 
     def __init__(self, g, interps, plan, loadcap, outpath, nproc=None):
         self.g, self.interps = g, interps
         self.plan, self.loadcap = plan, loadcap
         self.outpath = outpath
-        self.sem = multiprocessing.Semaphore(nproc or NPROC)
+        self.sem = multiprocessing.Semaphore((nproc or NPROC) - 1)
         self.fd = None
         self.root = None
 
@@ -413,97 +429,88 @@ class Walker:
         rec["root"] = self.root
         os.write(self.fd, (json.dumps(rec) + "\n").encode())
 
+    def spawn(self, asyncs, body):
+        """Run body() in a forked copy: asynchronously if a slot is free, else
+        wait for it.  asyncs collects the pids still to be reaped."""
+        slot = self.sem.acquire(block=False)
+        pid = os.fork()
+        if pid == 0:
+            code = 0
+            try:
+                body()
+            except BaseException:  # noqa: BLE001
+                import traceback
+                try:
+                    self.emit({"t": "crash", "what": traceback.format_exc()[-1500:]})
+                except Exception:  # noqa: BLE001
+                    pass
+                code = 3
+            if slot:
+                self.sem.release()
+            os._exit(code)
+        if slot:
+            asyncs.append(pid)
+            for p in list(asyncs):               # reap what has finished meanwhile
+                r, st = os.waitpid(p, os.WNOHANG)
+                if r:
+                    asyncs.remove(p)
+                    self.status(st)
+        else:
+            _, st = os.waitpid(pid, 0)
+            self.status(st)
+
+    def status(self, st):
+        if st != 0:
+            self.emit({"t": "crash", "what": f"walker child exited with status {st}"})
+
     def start(self, roots):
         """roots: list of (root sid, module directory, initial tag).  Runs the
         plan below every root; returns when every process has ended."""
         self.fd = os.open(self.outpath, os.O_WRONLY | os.O_APPEND | os.O_CREAT)
         gc.disable()
         warm = Sessions(self.interps)        # constructed once; every root forks a pristine copy
-        pids = []
+        asyncs = []
         for k, (root_sid, moddir, tag) in enumerate(roots):
-            self.sem.acquire()
-            pid = os.fork()
-            if pid == 0:
-                code = 0
-                try:
-                    self.root = k
-                    sess = warm
-                    sess.configure(moddir)
-                    n = self.check_state(sess, root_sid, [], None)
-                    self.emit({"t": "n", "edges": 0, "evals": n})
-                    self.children(sess, root_sid, 0, [], None, tag)
-                except BaseException:  # noqa: BLE001
-                    import traceback
-                    try:
-                        self.emit({"t": "crash", "what": traceback.format_exc()[-1500:]})
-                    except Exception:  # noqa: BLE001
-                        pass
-                    code = 3
-                os._exit(code)
-            pids.append(pid)
-            while len(pids) > 64:
-                self.reap(pids.pop(0))
-        for pid in pids:
-            self.reap(pid)
-
-    def reap(self, pid):
-        _, st = os.waitpid(pid, 0)
-        if st != 0:
-            self.emit({"t": "crash", "what": f"walker root exited with status {st}"})
+            def body(k=k, root_sid=root_sid, moddir=moddir, tag=tag):
+                self.root = k
+                warm.configure(moddir)
+                n = self.check_state(warm, root_sid, [], None)
+                self.emit({"t": "n", "edges": 0, "evals": n})
+                self.children(warm, root_sid, 0, [], None, tag)
+            self.spawn(asyncs, body)
+        for pid in asyncs:
+            _, st = os.waitpid(pid, 0)
+            self.status(st)
 
     def children(self, sess, sid, depth, path, prev, tag):
-        """Called holding a token.  Plan items that are not `inline` get a
-        forked copy of this process each (they need the state as it is now);
-        inline items are then executed one after the other in this process
-        (their path records what really ran before them)."""
+        """Plan items that are not `inline` get a forked copy of this process
+        each (they need the state as it is now); inline items are then executed
+        one after the other in this process (their path records what really
+        ran before them)."""
         items = self.plan(sid, depth, path, tag)
-        self.sem.release()
-        pids = []
+        asyncs = []
         for (c, o, q, expand, tag2, inline) in items:
             if inline:
                 continue
-            self.sem.acquire()
-            pid = os.fork()
-            if pid == 0:
-                code = 0
-                try:
-                    path2, prev2 = self.edge(sess, sid, c, o, q, path, prev)
-                    if expand:
-                        self.children(sess, q, depth + 1, path2, prev2, tag2)
-                    else:
-                        self.sem.release()
-                except BaseException:  # noqa: BLE001
-                    import traceback
-                    try:
-                        self.emit({"t": "crash", "what": traceback.format_exc()[-1500:]})
-                        self.sem.release()
-                    except Exception:  # noqa: BLE001
-                        pass
-                    code = 3
-                os._exit(code)
-            pids.append(pid)
-        inl = [it for it in items if it[5]]
-        if inl:
-            self.sem.acquire()
-            cur = sid
-            for k, (c, o, q, expand, tag2, _) in enumerate(inl):
-                path, prev = self.edge(sess, cur, c, o, q, path, prev)
-                cur = q
-                depth += 1
+
+            def body(c=c, o=o, q=q, expand=expand, tag2=tag2):
+                path2, prev2 = self.edge(sess, sid, c, o, q, path, prev)
                 if expand:
-                    if k != len(inl) - 1:
-                        raise MachineryError("only the last inline item may be expanded")
-                    self.children(sess, q, depth, path, prev, tag2)   # releases the token
-                    break
-            else:
-                self.sem.release()
-        bad = 0
-        for pid in pids:
+                    self.children(sess, q, depth + 1, path2, prev2, tag2)
+            self.spawn(asyncs, body)
+        cur = sid
+        inl = [it for it in items if it[5]]
+        for k, (c, o, q, expand, tag2, _) in enumerate(inl):
+            path, prev = self.edge(sess, cur, c, o, q, path, prev)
+            cur = q
+            depth += 1
+            if expand:
+                if k != len(inl) - 1:
+                    raise MachineryError("only the last inline item may be expanded")
+                self.children(sess, q, depth, path, prev, tag2)
+        for pid in asyncs:
             _, st = os.waitpid(pid, 0)
-            if st != 0:
-                bad += 1
-        if bad:
-            self.emit({"t": "crash", "what": f"{bad} child processes failed below {len(path)} commands"})
+            self.status(st)
 
     def edge(self, sess, sid, c, o, q, path, prev):
         """Execute one command on the live interpreters and compare."""
@@ -809,16 +816,21 @@ def walk(run, g, interps, roots, fsdefs, mode, verdict, prefix, loadcap=1, maxle
     return report(run, recs, verdict, prefix, [fsdefs[fi] for (_, fi, _) in roots], interps)
 
 
-def run_graph(run, cfg, interps, label, mode, rng, params):
-    """One TLC run of Session.tla (c10 mode) + one walk. mode: cover | depth | walks."""
+def run_graph(run, cfg, interps, label, modes, rng):
+    """One TLC run of Session.tla (c10 mode) + one walk per entry of modes:
+    (mode, params) with mode in cover | depth | walks."""
     g, _ = tlc_graph(run, cfg, label)
     root = init_id(g, interps)
-    tag = None
-    if mode == "walks":
-        tag = random_walks(g, root, rng, params["nwalks"], params["maxlen"])
-    edges, evals = walk(run, g, interps, [(root, 0, tag)], g.fsdefs[:1], mode, C10_VERDICT,
-                        "c10/" + cfg, maxlen=params.get("maxlen"))
-    return g, edges, evals
+    res = []
+    for mode, params in modes:
+        tag = None
+        if mode == "walks":
+            tag = random_walks(g, root, rng, params["nwalks"], params["maxlen"])
+        t0 = time.time()
+        e, v = walk(run, g, interps, [(root, 0, tag)], g.fsdefs[:1], mode, C10_VERDICT,
+                    "c10/" + cfg, maxlen=params.get("maxlen"))
+        res.append((e, v, round(time.time() - t0, 1)))
+    return g, res
 
 
 def run(run):
@@ -829,33 +841,31 @@ def run(run):
     reqs = check_pinned(run)
     info["pinned_counterexample"] = "require %s twice" % (reqs[0] if reqs else "?")
 
-    def go(cfg, interps, label, mode, name, **params):
+    def go(cfg, interps, label, *modes):
+        """modes: (name, mode, params)"""
         nonlocal total_edges, total_evals
-        t0 = time.time()
-        g, e, v = run_graph(run, cfg, interps, label, mode, rng, params)
-        total_edges += e
-        total_evals += v
-        info[name] = {"states": len(g.key), "graph_edges": sum(len(x) for x in g.out.values()),
-                      "commands_executed": e, "tlc_and_replay_wall_s": round(time.time() - t0, 1)}
+        g, res = run_graph(run, cfg, interps, label, [(m, p) for (_, m, p) in modes], rng)
+        for (name, _, _), (e, v, wall) in zip(modes, res):
+            total_edges += e
+            total_evals += v
+            info[name] = {"cfg": cfg, "states": len(g.key), "graph_edges": sum(len(x) for x in g.out.values()),
+                          "commands_executed": e, "replay_wall_s": wall}
         return g
 
-    g1 = go("Session_one", ["i1"], "Session, one interpreter, core alphabet (repaired behaviour)",
-            "cover", "one_cover")
-    go("Session_two", ["i1", "i2"], "Session, two interleaved interpreters", "cover", "two_cover")
+    one = [("one_cover", "cover", {})]
+    two = [("two_cover", "cover", {})]
+    if not quick:
+        one.append(("one_histories_le5", "depth", {"maxlen": 5}))
+        two.append(("two_histories_le4", "depth", {"maxlen": 4}))
+        two.append(("two_walks_le30", "walks", {"nwalks": 3000, "maxlen": 30}))
+    g1 = go("Session_one", ["i1"], "Session, one interpreter, core alphabet (repaired behaviour)", *one)
+    go("Session_two", ["i1", "i2"], "Session, two interleaved interpreters (repaired behaviour)", *two)
     s0 = init_id(g1, ["i1"])
     run.sample({"EDGE": {"from": g1.key[s0], "cmd": g1.out[s0][0][0], "outcome": g1.out[s0][0][1]}})
     run.sample({"STATE.obs": g1.obs[g1.out[s0][-1][2]]})
     if not quick:
-        go("Session_one", ["i1"], "Session, one interpreter: every history <= 5", "depth",
-           "one_histories_le5", maxlen=5)
-        go("Session_two", ["i1", "i2"], "Session, two interpreters: every history <= 4", "depth",
-           "two_histories_le4", maxlen=4)
-        go("Session_wide", ["i1"], "Session, one interpreter, wide alphabet: cover + random histories <= 30",
-           "cover", "wide_cover")
-        go("Session_wide", ["i1"], "Session, one interpreter, wide alphabet: random histories <= 30",
-           "walks", "wide_walks", nwalks=4000, maxlen=30)
-        go("Session_two", ["i1", "i2"], "Session, two interpreters: random histories <= 30",
-           "walks", "two_walks", nwalks=3000, maxlen=30)
+        go("Session_wide", ["i1"], "Session, one interpreter, wide alphabet (all require forms)",
+           ("wide_cover", "cover", {}), ("wide_walks_le30", "walks", {"nwalks": 4000, "maxlen": 30}))
     run.cov["traces_validated_against_impl"] = total_edges
     run.cov["evaluations"] = total_evals
     run.cov["distinct_nontrivial"] = total_edges
